@@ -45,6 +45,21 @@ def _simp(t):
         c = _MODEL[0].maybe_cls(t[1][1]) if _MODEL[0] is not None else None
         if c is not None and t[2] not in c.properties and not c.resolve_all(t[2]):
             return dict(t[1][2])[t[2]]
+    # a field of the i-th record of a list of records built on the spot is the i-th element of the list of that field:
+    #   [R(f=x(..), g=y(..)) for ..][i].f  ==  [x(..) for ..][i]     (same for a pair: [(x, y) for ..][i][0])
+    if t[0] in ("attr", "item") and isinstance(t[1], tuple) and t[1] and t[1][0] == "sub":
+        lst = devar(t[1][1])
+        if lst[0] == "comp" and lst[1] == "list":
+            proj = _simp((t[0], lst[2], t[2]))
+            if proj != (t[0], lst[2], t[2]):
+                return ("sub", ("comp", "list", proj, lst[3]), t[1][2])
+    # a list of one field of such records: [p.f for p in [R(f=x(..), ..) for ..]]  ==  [x(..) for ..]
+    if t[0] == "comp" and len(t[3]) == 1 and not t[3][0][1] and t[2][0] in ("attr", "item") and t[2][1][0] == "bound":
+        inner = devar(t[3][0][0])
+        if inner[0] == "comp" and inner[1] == "list" and t[2][1][-1] == show(t[3][0][0]):
+            proj = _simp((t[2][0], inner[2], t[2][2]))
+            if proj != (t[2][0], inner[2], t[2][2]):
+                return ("comp", t[1], proj, inner[3])
     if t[0] == "item" and isinstance(t[1], tuple) and t[1] and t[1][0] == "new" and isinstance(t[2], int) and _MODEL[0] is not None:
         from ..sym import is_named_tuple, named_tuple_fields
         c = _MODEL[0].maybe_cls(t[1][1])
@@ -261,8 +276,8 @@ def read_domain(model: Model, it: Term, elt: Term, path: Optional[Path]) -> Tupl
     it_label = show(it)
     it, elt = mark_tables(it, tb), mark_tables(elt, tb)
     it0 = it
-    while it0[0] == "var" and len(it0) == 4:
-        it0 = it0[3]
+    while (it0[0] == "var" and len(it0) == 4) or (it0[0] == "call" and it0[1] in ("list", "tuple") and len(it0[2]) == 1 and not it0[3] and it0[2][0][0] == "call" and it0[2][0][1] == "zip"):
+        it0 = it0[3] if it0[0] == "var" else it0[2][0]      # ``list(zip(..))`` ranges over what ``zip(..)`` ranges over
     zb = [b for b in subterms(elt, lambda y: y[0] == "bound" and y[3] == it_label)]
     zb = list(dict.fromkeys(zb))
     if len(zb) != 1:
